@@ -20,7 +20,7 @@ RULE = ("generated strongly connected street graphs (4-14 nodes on a jittered gr
 ASSUMPTIONS = ["street graphs are strongly connected, node ids are ints and there are no parallel edges (the link table keeps one link per ordered node pair), as OSMRoadNetwork requires",
                "the OSM loader workaround (node_link_graph(edges='links')) is used because OSMRoadNetwork.from_file cannot read the shipped JSON under the installed networkx",
                "PYTHONHASHSEED pinned to 0"]
-FLOORS = {"quick": {"pairs": 2000, "flag:inner_links": 350, "flag:same_link_backwards": 50, "flag:opposite_directions": 20}, "thorough": {"pairs": 300000}}
+FLOORS = {"quick": {"pairs": 2000, "flag:inner_links": 350, "flag:same_link_backwards": 50, "flag:opposite_directions": 20}, "thorough": {"pairs": 100000}}
 
 
 @st.composite
